@@ -8,15 +8,22 @@
      retrytrip{k,admitted}            a request needed a retry while k retries were in flight: retried, or the
                                       upstream's own failure was passed on because max_retries was reached
      trip{k,admitted}                 a request was sent while k requests were held upstream: admitted or refused (503)
-     sample{stable,inflight,requests,pending,retries,connections,up_req_active,ds_active,up_conn_active,conns_truth}
-                                      books read while `inflight` requests are held and nothing else moves
+     update{kind,to,maxreq,maxretry}  a cluster of the same name, type and addresses was published through the cluster manager
+                                      (Breaker!Update; kind primary = AddOrUpdatePrimaryCluster, andhosts = AddOrUpdateClusterAndHost)
+                                      with these thresholds, while the requests that have arrived and not departed are in flight
+     sample{stable,inflight,requests,pending,retries,connections,up_req_active,ds_active,up_conn_active,conns_truth,
+            max_requests,max_retries}
+                                      books and thresholds read from the cluster the cluster manager exposes NOW, while `inflight`
+                                      requests are held and nothing else moves
      --- TCP proxy part (pkg/filter/network/streamproxy) ---
      trun{maxconn}                    new TCP-proxy history; clusters ok / ref / bh (echo host, refusing host, black-holed host)
      topen{id,cluster,established,k}  a downstream connection was opened towards `cluster` while k upstream connections of
                                       that cluster were established: it got an upstream connection or was closed by the proxy
      tclose{id}                       an established pair was closed (by the client or by the upstream) and the proxy has
                                       closed the other side
-     tsample{cluster,truth,connections,up_conn_active}   books of one cluster next to the echo host's open-connection count *)
+     tupdate{kind,to,maxconn}         every cluster of the history was published again with this max_connections
+     tsample{cluster,truth,connections,up_conn_active,max_connections}   books of one cluster (as exposed now) next to the
+                                      echo host's open-connection count *)
 EXTENDS Integers, FiniteSets, TLC, VTrace
 
 VARIABLES maxreq, maxretry, infl, rinfl, maxconn, topenS
@@ -24,7 +31,9 @@ vars == <<maxreq, maxretry, infl, rinfl, maxconn, topenS>>
 tvars == <<vars, l>>
 
 CanCreate(cur, max) == max = 0 \/ cur < 0 \/ cur < max      \* as Breaker!CanCreate
-Counted(max, n) == IF max = 0 THEN 0 ELSE n                   \* the code does not count a resource without threshold
+(* The books of a resource equal the outstanding admissions whether or not it has a threshold (a cluster update may
+   switch the threshold on or off while admissions are outstanding; max = 0 only means that nothing is refused). *)
+CountedOK(max, cur, n) == cur = n
 
 TraceInit == l = 1 /\ maxreq = 0 /\ maxretry = 0 /\ infl = {} /\ rinfl = {} /\ maxconn = 0 /\ topenS = {}
 TRun == IsEvent("run") /\ maxreq' = Ev.maxreq /\ maxretry' = Ev.maxretry /\ infl' = {} /\ rinfl' = {} /\ UNCHANGED <<maxconn, topenS>>
@@ -36,17 +45,20 @@ TTOpen == /\ IsEvent("topen")
           /\ Expect(Ev.cluster = "ok" \/ ~Ev.established, "driver-truth")
           /\ topenS' = IF Ev.established THEN topenS \cup {<<Ev.id, Ev.cluster>>} ELSE topenS
           /\ UNCHANGED <<maxreq, maxretry, infl, rinfl, maxconn>>
+TTUpdate == IsEvent("tupdate") /\ maxconn' = Ev.maxconn /\ UNCHANGED <<maxreq, maxretry, infl, rinfl, topenS>>
 TTClose == /\ IsEvent("tclose") /\ topenS' = { x \in topenS : x[1] # Ev.id }
            /\ UNCHANGED <<maxreq, maxretry, infl, rinfl, maxconn>>
 TTSample == /\ IsEvent("tsample")
             /\ LET n == Cardinality({ x \in topenS : x[2] = Ev.cluster }) IN
                  /\ Expect(Ev.truth = n, "driver-truth")
-                 /\ Expect(Ev.connections = Counted(maxconn, n), IF Ev.connections < 0 THEN "tcp-connections-negative" ELSE "tcp-connections-not-conserved")
+                 /\ Expect(CountedOK(maxconn, Ev.connections, n), IF Ev.connections < 0 THEN "tcp-connections-negative" ELSE "tcp-connections-not-conserved")
+                 /\ Expect(Ev.max_connections = maxconn, "tcp-threshold-not-in-force")
                  /\ Expect(Ev.up_conn_active = n, IF Ev.up_conn_active < 0 THEN "tcp-upstream-connection-active-negative" ELSE "tcp-upstream-connection-active-gauge")
             /\ UNCHANGED vars
 TArrive == /\ IsEvent("arrive") /\ infl' = infl \cup {Ev.tok}
            /\ rinfl' = IF Ev.retry THEN rinfl \cup {Ev.tok} ELSE rinfl
            /\ UNCHANGED <<maxreq, maxretry, maxconn, topenS>>
+TUpdate == IsEvent("update") /\ maxreq' = Ev.maxreq /\ maxretry' = Ev.maxretry /\ UNCHANGED <<infl, rinfl, maxconn, topenS>>
 TDepart == IsEvent("depart") /\ infl' = infl \ {Ev.tok} /\ rinfl' = rinfl \ {Ev.tok} /\ UNCHANGED <<maxreq, maxretry, maxconn, topenS>>
 TRetryTrip == /\ IsEvent("retrytrip")
               /\ Expect(Ev.k = Cardinality(rinfl), "driver-truth")
@@ -59,8 +71,9 @@ TTrip == /\ IsEvent("trip")
 TSample == /\ IsEvent("sample")
            /\ LET n == Cardinality(infl) IN
                 /\ Expect(Ev.inflight = n, "driver-truth")
-                /\ Expect(Ev.requests = Counted(maxreq, n), IF Ev.requests < 0 THEN "requests-negative" ELSE "requests-not-conserved")
-                /\ Expect(Ev.retries = Counted(maxretry, Cardinality(rinfl)), IF Ev.retries < 0 THEN "retries-negative" ELSE "retries-not-conserved")
+                /\ Expect(CountedOK(maxreq, Ev.requests, n), IF Ev.requests < 0 THEN "requests-negative" ELSE "requests-not-conserved")
+                /\ Expect(CountedOK(maxretry, Ev.retries, Cardinality(rinfl)), IF Ev.retries < 0 THEN "retries-negative" ELSE "retries-not-conserved")
+                /\ Expect(Ev.max_requests = maxreq /\ Ev.max_retries = maxretry, "threshold-not-in-force")
                 /\ Expect(Ev.pending = 0, "pending-not-conserved")
                 /\ Expect(Ev.connections >= 0, "connections-negative")
                 /\ Expect(Ev.up_req_active = n, "upstream-request-active-gauge")
@@ -68,6 +81,6 @@ TSample == /\ IsEvent("sample")
                 /\ Expect(Ev.up_conn_active = Ev.conns_truth, "upstream-connection-active-gauge")
            /\ UNCHANGED vars
 TNote == IsEvent("note") /\ UNCHANGED vars
-TraceNext == TTRun \/ TTOpen \/ TTClose \/ TTSample \/ TRun \/ TArrive \/ TDepart \/ TRetryTrip \/ TTrip \/ TSample \/ TNote
+TraceNext == TTRun \/ TTOpen \/ TTUpdate \/ TUpdate \/ TTClose \/ TTSample \/ TRun \/ TArrive \/ TDepart \/ TRetryTrip \/ TTrip \/ TSample \/ TNote
 TraceSpec == TraceInit /\ [][TraceNext]_tvars
 ====
